@@ -124,5 +124,9 @@ func init() {
 		fr.i.path.env.crashCommits = true
 		return nil
 	})
+	H("RecycleIteratorKeys", func(fr *frame, args []value) value {
+		fr.i.path.env.recycleKeys = true
+		return nil
+	})
 	H("Acked", func(fr *frame, args []value) value { return fr.i.path.env.acked })
 }
